@@ -43,6 +43,7 @@ from .world import ClassInfo, FuncInfo, ModuleInfo, SourceError
 
 QUERY_TIMEOUT_MS = int(os.environ.get("PYVC_QUERY_TIMEOUT_MS", "60000"))
 FEAS_TIMEOUT_MS = int(os.environ.get("PYVC_FEAS_TIMEOUT_MS", "800"))
+CONTRACT_WALL_S = int(os.environ.get("PYVC_CONTRACT_WALL_S", "420"))
 
 
 class Oblig:
@@ -258,6 +259,14 @@ class Ctx:
         self.steps += 1
         if self.steps > int(self.opts.get("max_steps", 400000)):
             raise Unsupported("step budget exceeded on one path")
+        if self.steps & 63 == 0:
+            self.check_wall()
+
+    def check_wall(self):
+        """A contract that cannot be decided within its wall-clock budget is undecided (degraded to its bounded
+        stand-in), never a hang: a change to the code must not be able to stall the check."""
+        if time.time() > getattr(self, "deadline", float("inf")):
+            raise Unsupported(f"wall-clock budget of {CONTRACT_WALL_S} s exhausted")
 
     def fresh_label(self, base):
         n = self.fresh_n.get(base, 0)
@@ -304,6 +313,7 @@ class Ctx:
         return r != z3.unsat
 
     def branch(self, cond, node=None, free=False):
+        self.check_wall()
         if isinstance(cond, bool):
             return cond
         cond = simp(cond)
@@ -1106,6 +1116,7 @@ class Ctx:
         """Evaluate one contract clause and check it.  Forks that happen INSIDE the clause (layout slicing,
         symbolic indices ...) are explored locally from the same post-state, so they do not multiply with the
         forks of the other clauses or re-run the function body."""
+        self.check_wall()
         base_pc = len(self.pc)
         base_prefix = list(self.prefix)
         base_idx = self.dec_idx
@@ -1179,6 +1190,7 @@ class Ctx:
 
     # ------------------------------------------------------------------ obligations
     def check(self, goal, name, kind, text, line=None):
+        self.check_wall()
         if self.speculating:
             raise SpecAbort()
         ob = self.result.oblig(name, kind, text)
@@ -1550,7 +1562,7 @@ class Ctx:
                         s.pop()
             rng.shuffle(consts)
             for c, sort in consts:
-                if rng.random() < 0.15 or time.time() > deadline:
+                if (rng.random() < 0.15 and not isinstance(sort, tuple)) or time.time() > deadline:
                     continue
                 if sort == "Int":
                     v = rng.choice(self.INT_POOL) if rng.random() < 0.6 else rng.randint(-40, 250)
@@ -1563,6 +1575,8 @@ class Ctx:
                     cand = c == z3.RealVal(v)
                 elif sort == "Bool":
                     cand = c == (rng.random() < 0.5)
+                elif isinstance(sort, tuple) and sort[0] == "Len":
+                    cand = c == rng.randint(sort[1], sort[2])
                 else:
                     continue
                 s.push()
@@ -1596,6 +1610,7 @@ class Ctx:
         res = self.result
         c = self.contract
         t0 = time.time()
+        self.deadline = t0 + CONTRACT_WALL_S
         self.worklist = [[]]
         try:
             target = self._target()
@@ -1611,6 +1626,7 @@ class Ctx:
             self.reset_path(prefix)
             res.paths += 1
             try:
+                self.check_wall()
                 self.run_path(target)
             except PathEnd:
                 pass
@@ -1922,6 +1938,8 @@ def _collect_consts(recs, acc):
             _collect_consts([r[2]], acc)
         elif k == "seqsym":
             acc.append((r[1], "Seq" + r[2]))
+        elif k == "nametok":
+            acc.append((r[2], ("Len", r[3], r[4])))
 
 
 def _alias_clause(text):
